@@ -16,6 +16,7 @@ def main(tier, replay=None):
         S.model_check(sc.chk, sc.work, "N3W2S3_frac_kill", {"N": 3, "Workers": 2, "Steps": 3, "TrackFrac": True, "MaxRestarts": 1, "MoreSteps": 1, "MaxPn": 10}, INV, [], timeout=3000,
                       required=("InitPick", "LoopPick", "Complete", "Finish", "Kill", "Restart"))
         S.model_check(sc.chk, sc.work, "N4W2S3_frac", {"N": 4, "Workers": 2, "Steps": 3, "TrackFrac": True, "MaxPn": 12}, INV, [], timeout=3000)
+    S.sort_states(sc, "N4W2S3", {"N": 4, "Workers": 2, "Steps": 3, "MaxPn": 12})     # two idle rows to be sorted around a busy one
     S.sort_states(sc, "N4W3S3", {"N": 4, "Workers": 3, "Steps": 3, "MaxPn": 12})
     sc.replay_behaviours("N3W2S4_kill", {"N": 3, "Workers": 2, "Steps": 4, "MaxPn": 14, "MaxRestarts": 1, "MoreSteps": 2}, 120 if q else 1500, 20)
     sc.replay_behaviours("N4W3S6", {"N": 4, "Workers": 3, "Steps": 6, "MaxPn": 18}, 300 if q else 2500, 22)
